@@ -342,6 +342,16 @@ func init() {
 			}
 			c16Check(c, "datetime", h, nil)
 		}
+		// calendar dates that exist only in some years (29 February: 2000 and 2400 are leap years, 1900 and 2100 are
+		// not) and month ends
+		for _, d := range [][3]int{{2000, 2, 29}, {2400, 2, 29}, {1600, 2, 29}, {2024, 2, 29}, {1900, 2, 29}, {2100, 2, 28}, {2023, 2, 29}, {2000, 2, 28}, {2000, 3, 1},
+			{2023, 4, 30}, {2023, 4, 31}, {2023, 12, 31}, {2023, 1, 31}, {1999, 12, 31}, {2000, 1, 1}} {
+			h := baseHeader()
+			for f, v := range []int{d[0], d[1], d[2], 23, 59, 59} {
+				binary.BigEndian.PutUint16(h[24+2*f:], uint16(v))
+			}
+			c16Check(c, "calendar-date", h, nil)
+		}
 		for k := 0; k < 400; k++ {
 			h := randBytes(rng, 128)
 			copy(h[36:], "acsp")
